@@ -347,6 +347,10 @@ def schema_overflow(prog, o):
         r = schema_bounded_accumulator(prog, o, a, b)
         if r:
             return r
+        if op == "Add":
+            r = schema_below_usize(prog, o, a, b, facts)
+            if r:
+                return r
         return None
     if op == "Sub":
         if b[0] == "int" and fact_implies_ge(facts, a, b[1]):
@@ -366,6 +370,40 @@ def schema_overflow(prog, o):
         if r:
             return r
     return None
+
+
+def schema_below_usize(prog, o, a, b, facts):
+    """a + b where a dominating guard gives a + b <= n (+ c, c <= 0) for a single usize-valued term n:
+    e.g. `i + 1` under `i < n`."""
+    from ..poly import poly, Poly, fact_nf
+    tot = poly(a) + poly(b)
+    for f in facts:
+        if f[0][0] != "cmp":
+            continue
+        k, q = fact_nf(f)
+        if k != "ge0":
+            continue
+        r = q + tot            # q >= 0  ==>  a + b <= r
+        c = r.const_value()
+        rest = r - Poly.const(c)
+        items = list(rest.m.items())
+        if c <= 0 and len(items) == 1 and len(items[0][0]) == 1 and items[0][1] == 1 and is_usize_term(o.body, items[0][0][0]):
+            return ("GUARD-DOM", "dominating guard implies the sum is <= %s, a usize value" % describe(items[0][0][0], o.body))
+    return None
+
+
+def is_usize_term(body, t):
+    """Conservative: lengths, usize parameters and usize user variables."""
+    if t[0] == "call" and t[1] in LEN_FUNS:
+        return True
+    if t[0] == "param":
+        return body.local_ty(t[1]).strip() == "usize"
+    if t[0] == "phi":
+        pk = t[2]
+        return not pk[1] and body.local_ty(pk[0]).strip() == "usize"
+    if t[0] == "field" and t[1][0] == "param":
+        return False
+    return False
 
 
 def schema_div(prog, o):
@@ -1260,7 +1298,69 @@ def schema_loop2(prog, o):
     r = loop_string_shrinks(prog, body, lm)
     if r:
         return r
+    r = loop_counter(prog, body, lm)
+    if r:
+        return r
     return None
+
+
+def loop_counter(prog, body, lm):
+    """COUNTER-LOOP: a usize variable i is increased by a positive constant on every path
+    back to the header, and every such path runs under the guard i < n (or i + k <= n) for a
+    loop-invariant n: the loop body is entered at most n times."""
+    from ..paths import loop_state_vars, loop_system
+    from ..poly import poly, Poly, fact_nf
+    s = sym_of(body)
+    sv = loop_state_vars(body, lm, types=("usize",))
+    if not sv:
+        return None
+    trans = [t for t in loop_system(prog, body, lm, list(sv.keys()), []) if t.kind == "back"]
+    if not trans:
+        return None
+    # terms that change inside the loop: loop phis of this loop's header
+    for pk, (nm, ty) in sv.items():
+        phi = s.val_entry(pk, lm.header)
+        ok = True
+        bound = None
+        for tr in trans:
+            d = poly(tr.next[pk]) - poly(phi)
+            if not (d.is_const() and d.const_value() >= 1):
+                ok = False
+                break
+            found = None
+            for f in tr.facts:
+                if f[0][0] != "cmp":
+                    continue
+                k, q = fact_nf(f)
+                if k != "ge0":
+                    continue
+                # q = n - i - c  with c >= 1: extract n
+                r = q + poly(phi)
+                if phi in q.atoms() and phi not in r.atoms():
+                    c = -r.const_value()
+                    n = r + Poly.const(c)
+                    if c >= 1 and n.m and _loop_invariant(body, lm, n):
+                        found = n
+            if found is None or (bound is not None and found != bound):
+                ok = False
+                break
+            bound = found
+        if ok and bound is not None:
+            return ("COUNTER-LOOP", "%s increases on every path round the loop and is bounded by the loop-invariant %s"
+                    % (nm, bound.show(lambda t: describe(t, body))))
+    return None
+
+
+def _loop_invariant(body, lm, p):
+    """No atom of the polynomial is (or contains) a value that merges at a block of the loop or is produced in it."""
+    from ..sym import subterms
+    for a in p.atoms():
+        for st in subterms(a):
+            if st[0] == "phi" and st[1] in lm.blocks:
+                return False
+            if st[0] in ("callm", "mut"):
+                return False
+    return True
 
 
 def param_iter_finite(prog, body, param):
